@@ -3,7 +3,7 @@ SPEC = {
     "level": "proof",
     "lean_modules": ["PallasVerif.Props.C41"],
     "required_theorems": ["sign_inv", "sign_in_step", "witnesses_valid", "wits_never_empty", "fresh_inv"],
-    "streams": [{"name": "txsign", "quick": 400, "thorough": 12000}],
+    "streams": [{"name": "txsign", "quick": 400, "thorough": 40000}],
     "rule": "a case = one built Conway transaction (40 fixture shapes: 1-3 inputs, 1-3 outputs with/without assets and inline "
             "datums, mint, required signers, witness-set datums, validity bounds) followed by 1..40 ops sign/add_signature/"
             "remove_signature over a pool of 1..4 keys (3 plain + 1 extended Ed25519 key; add_signature with verifying and with "
